@@ -37,7 +37,10 @@ fn run_event(out: &mut Out, t: &Tree, meth: &str, preset: &str, k: usize, budget
     let res = util::catch(move || {
         let game = tree::build(&t2).map_err(|e| format!("{e:?}"))?;
         verif::reset();
-        verif::set_draw_seed(Some(seed));
+        // seed u64::MAX = live randomness: the production samplers draw (nothing pinned)
+        if seed != u64::MAX {
+            verif::set_draw_seed(Some(seed));
+        }
         verif::set_record(true, false);
         let res = game.solve(cfr::method(&meth2), budget, thr, k, Some(cfr::params(&par)));
         let log = verif::take_log();
@@ -140,6 +143,16 @@ pub fn record(args: &Args) {
                                     if run_event(&mut out, t, meth, preset, k, budget, 0.0, sd, j == 0, j == 1).is_some() {
                                         runs += 1;
                                     }
+                                }
+                                // small games also at a budget at which the envelope is tight enough to see a
+                                // solver that settles on a non-equilibrium
+                                if t.count() <= 15 && k == 1 && run_event(&mut out, t, meth, preset, k, 160000, 0.0, sd, false, false).is_some() {
+                                    runs += 1;
+                                }
+                                // ... and once with LIVE randomness, so that the production samplers (not the pinned
+                                // draws of the hook) decide what is explored; the envelope leaves a factor of about 20
+                                if t.count() <= 15 && s == 0 && k == 1 && run_event(&mut out, t, meth, preset, k, 160000, 0.0, u64::MAX, false, false).is_some() {
+                                    runs += 1;
                                 }
                             }
                         }
